@@ -897,6 +897,50 @@ def _eval_bool_operand(fn, op, known, depth=0):
         return op[2] if isinstance(op[2], bool) else None
     if op[0] in "cm" and not op[1][1]:
         return _eval_bool_local(fn, op[1][0], known, depth)
+    if op[0] in "cm":
+        inner = _try_payload(fn, op[1])
+        if inner is not None:
+            return _eval_bool_operand(fn, inner, known, depth + 1)
+    return None
+
+
+def _try_payload(fn, place):
+    """`helper(..)?` after inlining: the place `(cf as Continue).0` where cf = Try::branch(r) and r is `Ok(x)` / `Some(x)` on its
+    only non-error definition (other definitions being `?`-propagated errors, which never continue): return the operand x."""
+    proj = place[1]
+    if len(proj) != 2 or proj[0][0] != "d" or proj[0][1] != "Continue" or proj[1][0] != "f":
+        return None
+    ds = fn.defs().get(place[0], [])
+    if not ds or any(d[2] != "call" for d in ds):
+        return None
+    locs = set()
+    for d in ds:        # jump threading may have duplicated the Try::branch call: all copies read the same result local
+        t = d[3]
+        if not (isinstance(t[3], dict) and str(t[3].get("d", "")).endswith("Try::branch")) or len(t[4]) != 1 or t[4][0][0] not in "cm" or t[4][0][1][1]:
+            return None
+        locs.add(t[4][0][1][0])
+    if len(locs) != 1:
+        return None
+    loc = locs.pop()
+    for _ in range(6):
+        ds = [d for d in fn.defs().get(loc, [])]
+        uses = [d for d in ds if d[2] == "assign" and not d[3][3][1] and d[3][4][0] == "use" and d[3][4][1][0] in "cm" and not d[3][4][1][1][1]]
+        if ds and len(uses) == len(ds) and len(set(u[3][4][1][1][0] for u in uses)) == 1:
+            loc = uses[0][3][4][1][1][0]
+            continue
+        break
+    oks, other = [], 0
+    for d in fn.defs().get(loc, []):
+        if d[2] == "assign" and not d[3][3][1] and d[3][4][0] == "agg" and d[3][4][1] == "adt" and d[3][4][2].rsplit("::", 1)[-1] in ("Ok", "Some") and len(d[3][4][3]) == 1:
+            oks.append(d[3][4][3][0])
+        elif d[2] == "call" and isinstance(d[3][3], dict) and str(d[3][3].get("d", "")).endswith("FromResidual::from_residual"):
+            continue
+        elif d[2] == "assign" and not d[3][3][1] and d[3][4][0] == "agg" and d[3][4][1] == "adt" and d[3][4][2].rsplit("::", 1)[-1] in ("Err", "None"):
+            continue
+        else:
+            other += 1
+    if len(oks) == 1 and not other:
+        return oks[0]
     return None
 
 
